@@ -15,3 +15,29 @@ def run(ctx: Ctx) -> None:
     from ..tables import t6_transforms
     t6_transforms.run_regrid(ctx, bspline=True, dense=False)  # refining a free-form deformation's image grid keeps the function
     ctx.floor("T6x.regrid", 2)
+
+
+def mutants(prog):
+    from .common import source_sub
+    B, S = "deepali.core.bspline", "deepali.spatial.bspline"
+    W = "cubic_bspline_interpolation_weights"
+    specs = [
+        ("weight 1/6", B, W, "kernel[:, 3] = offset.pow(3).mul_(1 / 6)", "kernel[:, 3] = offset.pow(3).mul_(1 / 3)", "T3.weights"),
+        ("weight column", B, W, "kernel[:, 2] = offset.add(kernel[:, 0]).sub_(kernel[:, 3].mul(2))", "kernel[:, 2] = offset.add(kernel[:, 0]).sub_(kernel[:, 3])", "T3."),
+        ("first derivative", B, W, "kernel[:, 0] = offset.sub(kernel[:, 3]).sub_(0.5)", "kernel[:, 0] = offset.sub(kernel[:, 3]).add_(0.5)", "T3."),
+        ("second derivative columns", B, W, "kernel[:, 2] = -offset.mul(3).sub_(1)\n            kernel[:, 1] = offset.mul(3).sub_(2)", "kernel[:, 1] = -offset.mul(3).sub_(1)\n            kernel[:, 2] = offset.mul(3).sub_(2)", "T3."),
+        ("third derivative sign", B, W, "kernel[:, 2] = -3\n            kernel[:, 1] = 3", "kernel[:, 2] = 3\n            kernel[:, 1] = -3", "T3."),
+        ("offset grid", B, W, "offset = torch.arange(0, 1, 1 / s,", "offset = torch.arange(1 / s, 1 + 1 / s, 1 / s,", "T3."),
+        ("control grid size", B, "cubic_bspline_control_point_grid_size", "n = m.div(s, rounding_mode='floor').add_(3)", "n = m.div(s, rounding_mode='floor').add_(2)", "T3."),
+        ("control grid size remainder", B, "cubic_bspline_control_point_grid_size", "n = n.where(m % s == 0, n.add(1))", "n = n.where(m % s != 0, n.add(1))", "T3."),
+        ("control grid origin", B, "cubic_bspline_control_point_grid", "origin=grid.index_to_world(-s)", "origin=grid.index_to_world(s)", "T3."),
+        ("control grid spacing", B, "cubic_bspline_control_point_grid", "spacing=grid.spacing().mul(s)", "spacing=grid.spacing()", "T3."),
+        ("subdivision mask", B, "subdivide_cubic_bspline", "torch.tensor([0.125, 0.75, 0.125]", "torch.tensor([0.25, 0.5, 0.25]", "T3.subdivide"),
+        ("subdivision interleave", B, "subdivide_cubic_bspline", "indices[dim] = slice(1, shape[dim], 2)\n        temp[indices] = conv1d(output, kernel_2, dim=dim, padding=0)", "indices[dim] = slice(1, shape[dim], 2)\n        temp[indices] = conv1d(output, kernel_2.flip(0) * 0 + kernel_1[:2] * 4, dim=dim, padding=0)", "T3.subdivide"),
+        ("evaluate: crop offset", B, "evaluate_cubic_bspline", "output = output[(slice(0, N), slice(0, C)) + tuple((slice(0, n) for n in shape))]", "output = output[(slice(0, N), slice(0, C)) + tuple((slice(1, n + 1) for n in shape))]", "T3.evaluate"),
+        ("evaluate: interleave order", B, "evaluate_cubic_bspline", "output = output.transpose(2, 3).flatten(2, 3)", "output = output.flatten(2, 3)", "T3.evaluate"),
+        ("ffd refine crop", S, "BSplineTransform.grid_", "new_params = new_params.narrow(dim, 1, new_shape[dim])", "new_params = new_params.narrow(dim, 0, new_shape[dim])", "T6x.regrid"),
+    ]
+    for name, mod, fn, old, new, expect in specs:
+        ov = source_sub(prog, mod, fn, old, new)
+        yield (name if ov is not None else name + " [spec does not apply]", ov, expect)
